@@ -309,7 +309,14 @@ fn check_long<T: Copy + PartialEq + Debug + Sync + Send + RefUnwindSafe>(ctx: &C
                 let got = (est.f)(&a, &b);
                 let rev = (est.f)(&b, &a);
                 st.pairs += 2;
-                if got != Res::Val(want) || rev != got {
+                // functions that answer in f32 cannot be exact beyond 2^24 positions: any correctly rounded route to
+                // count/length is accepted there (within one f32 unit in the last place of the exact ratio)
+                let f32_fn = (est.expect)(1, 3) == exp_f32(1, 3);
+                let close = match (&got, f32_fn) {
+                    (Res::Val(v), true) => (v - c as f64 / len as f64).abs() <= 6.0e-8,
+                    _ => false,
+                };
+                if (got != Res::Val(want) && !close) || rev != got {
                     ctx.violation(
                         &format!("counting-long:{}:{}", est.name, tname),
                         &format!("{}<{}> on sketches of length {} with {} equal positions returns {:?} / {:?} (arguments swapped), expected {}", est.name, tname, len, c, got, rev, want),
